@@ -346,3 +346,7 @@ func (r *Report) RacePass() {
 		r.Viol = append(r.Viol, explore.Violation{Harness: "racepass", Params: r.ID, Clause: "no-data-race", Sig: sig, Msg: "the race detector reports a data race between library operations (native run, no scheduler):\nWARNING: DATA RACE" + firstLines(rep, 40)})
 	}
 }
+
+// Seconds returns the real wall-clock seconds since the report was created (harness packages are rewritten
+// onto a virtual clock, so they cannot measure real time themselves).
+func (r *Report) Seconds() float64 { return time.Since(r.t0).Seconds() }
